@@ -88,6 +88,30 @@ def answer_sites(arm_body, arm_node):
                     raise AnalysisError(f"{fn_.name}: the answer at line {stmt.lineno} is the local `{val.id}`, assigned in {len(stores)} places: the arms do not answer where they stand, so the per-arm soundness argument does not apply to this shape")
         gs = [(t, p) for t, p in dominating_guards(stmt, stop=None) if _inside(t, arm_body)]
         gs += [(t, p) for t, p in preceding_exit_guards(stmt) if _inside(t, arm_body)]
+        # a site inside `except AttributeError:` of `try: v = X.attr` is reached exactly when X has no such attribute;
+        # in the `else:` of that try, exactly when it has
+        anc = stmt
+        while getattr(anc, "_parent", None) is not None and _inside(anc, arm_body):
+            par_ = anc._parent
+            if isinstance(par_, ast.ExceptHandler) and isinstance(getattr(par_, "_parent", None), ast.Try):
+                tr_ = par_._parent
+                reads = [x for st_ in tr_.body for x in ast.walk(st_) if isinstance(x, ast.Attribute) and isinstance(x.ctx, ast.Load)]
+                if par_.type is not None and ast.unparse(par_.type) == "AttributeError" and len(tr_.body) == 1 and len(reads) == 1:
+                    g_ = ast.parse(f"hasattr({ast.unparse(reads[0].value)}, {reads[0].attr!r})", mode="eval").body
+                    ast.copy_location(g_, par_)
+                    for x in ast.walk(g_):
+                        ast.copy_location(x, par_)
+                    gs.append((g_, False))
+                else:
+                    raise AnalysisError(f"an answer at line {stmt.lineno} sits in an exception handler (`except {ast.unparse(par_.type) if par_.type else ''}`): under which condition it is reached is not read")
+            if isinstance(par_, ast.Try) and any(anc is x for x in par_.orelse):
+                reads = [x for st_ in par_.body for x in ast.walk(st_) if isinstance(x, ast.Attribute) and isinstance(x.ctx, ast.Load)]
+                if len(par_.handlers) == 1 and par_.handlers[0].type is not None and ast.unparse(par_.handlers[0].type) == "AttributeError" and len(par_.body) == 1 and len(reads) == 1:
+                    g_ = ast.parse(f"hasattr({ast.unparse(reads[0].value)}, {reads[0].attr!r})", mode="eval").body
+                    for x in ast.walk(g_):
+                        ast.copy_location(x, par_)
+                    gs.append((g_, True))
+            anc = par_
 
         def emit(v, guards):
             # `A if T else B` answers A under T and B under not T
@@ -214,7 +238,7 @@ def _norm_atom(a):
     for _ in range(2):
         for nm, vals in _BOOL_ENV.items():
             vs = [v for v in vals if isinstance(v, ast.AST)]
-            if len(vs) == 1 and len(vals) == 1 and isinstance(vs[0], ast.Attribute) and nm in a:
+            if vs and len(vs) == len(vals) and len({src(v) for v in vs}) == 1 and isinstance(vs[0], ast.Attribute) and nm in a:
                 a = re.sub(rf"(?<![\w.]){re.escape(nm)}(?![\w])", src(vs[0]), a)
     return a
 
@@ -242,7 +266,8 @@ def nonneg_integral(pf):
 
 def container_guarded(site, subject, slot):
     # a local bound once to the operand (`vector = expr.vector`) stands for it in the guards
-    aliases = [nm for nm, vals in _BOOL_ENV.items() if len([v for v in vals if isinstance(v, ast.AST)]) == 1 and len(vals) == 1 and src(vals[0]) == f"{subject}.{slot}"]
+    # (bound in several arms is fine as long as every binding is that same operand)
+    aliases = [nm for nm, vals in _BOOL_ENV.items() if vals and all(isinstance(v, ast.AST) and src(v) == f"{subject}.{slot}" for v in vals)]
 
     def norm(a):
         for nm in aliases:
@@ -547,6 +572,17 @@ def _power_by_scenario(prog, rep, fi):
     subj = d.subject
     iterative = any(isinstance(n, ast.While) for n in walk_local(fi.node))
     results = {}
+    # exponent validation by exception (a helper that raises a private exception the analyser catches right away): the
+    # scenario walk summarises helpers by what they return and would take the helper's normal return for the answer
+    for tr_ in [n for n in walk_local(fi.node) if isinstance(n, ast.Try) and n.handlers]:
+        for c_ in [x for st_ in tr_.body for x in ast.walk(st_) if isinstance(x, ast.Call) and isinstance(x.func, ast.Name)]:
+            h_ = prog.functions.get(f"{fi.module.name}:{c_.func.id}")
+            if h_ is not None and any(isinstance(y, ast.Raise) for y in ast.walk(h_.node)):
+                caught = {ast.unparse(k_) for hd_ in tr_.handlers if hd_.type is not None for k_ in (hd_.type.elts if isinstance(hd_.type, ast.Tuple) else [hd_.type])}
+                raised = {ast.unparse(y.exc.func if isinstance(y.exc, ast.Call) else y.exc) for y in ast.walk(h_.node) if isinstance(y, ast.Raise) and y.exc is not None}
+                if caught & raised:
+                    rep.undecided(f"{fi.name}[BinaryOp **]: {h_.name}() signals a non-polynomial exponent by raising {sorted(caught & raised)[0]}, caught at line {tr_.lineno}: exception-carried control flow is not followed by the exponent scenarios")
+                    return False
     for label, sc in POWER_SCENARIOS:
         def facts(t, sc=sc):
             text = src(t)
@@ -601,7 +637,9 @@ def _power_by_scenario(prog, rep, fi):
 
                 def on_stmt(st, state):
                     env = state["env"]
-                    if isinstance(st, ast.Assign) and len(st.targets) == 1 and isinstance(st.targets[0], ast.Name):
+                    if isinstance(st, ast.Assign) and len(st.targets) == 1 and isinstance(st.targets[0], ast.Name) and st.targets[0].id == subj:
+                        env.pop(subj, None)     # the node under analysis stays symbolic, however it is fetched (stack.pop(), frame.node)
+                    elif isinstance(st, ast.Assign) and len(st.targets) == 1 and isinstance(st.targets[0], ast.Name):
                         env[st.targets[0].id] = w.value(st.value, env)
                     elif isinstance(st, ast.AnnAssign) and isinstance(st.target, ast.Name) and st.value is not None:
                         env[st.target.id] = w.value(st.value, env)
